@@ -15,6 +15,7 @@ from decimal import Decimal
 from fractions import Fraction
 
 from .. import core
+from ..c18_wire import RX_DATE_UNION, w_foreign, w_props  # noqa: F401  (workers, reached through dispatch)
 
 MODULE = 'vf.props.c18'
 
@@ -26,8 +27,12 @@ RX_DECIMAL = re.compile(r'^[+-]?([0-9]+(\.[0-9]*)?|\.[0-9]+)$', re.ASCII)
 RX_DURATION_SDPI = re.compile(r'^PT([0-9]+H)?([0-9]+M)?([0-9]+(\.[0-9]+)?S)?$', re.ASCII)
 
 
+_RX_XML_WS = re.compile(r'[ \t\n\r]+')
+
+
 def collapse(s: str) -> str:
-    return ' '.join(s.strip(' \t\n\r').split())
+    """whiteSpace = collapse of XSD part 2: only #x20 #x9 #xA #xD are white space (str.split() would also swallow U+00A0, U+2003, \\x0b ...)"""
+    return _RX_XML_WS.sub(' ', s).strip(' ')
 
 
 # =============================================================================================
@@ -97,6 +102,17 @@ def w_timestamps_py(ctx: core.Ctx, arg):
             ctx.witness('ts.py_xml_py', 'Python->XML->Python changes a timestamp by >= 1 ms', {'x': repr(x), 'xml': s, 'back': repr(back)})
         if i == 0:
             ctx.sample({'kind': 'timestamp py->xml->py', 'x': repr(x), 'xml': s, 'back': repr(back)})
+        # the same instant in a non-canonical but valid xsd:unsignedLong form (leading zeros, '+'): read as the same value
+        if i % 8 == 0:
+            alt = rng.choice(['0', '00', '000', '+', '+0']) + s
+            try:
+                back2 = T.to_py(alt)
+            except Exception as ex:  # noqa: BLE001
+                ctx.witness('ts.to_py_raises', 'valid xsd:unsignedLong lexical (leading zeros / plus sign) rejected', {'xml': alt, 'ex': repr(ex)})
+                continue
+            ctx.count('ts.noncanonical.evaluated')
+            if Fraction(back2) != Fraction(back) or T.to_xml(back2) != s:
+                ctx.witness('ts.to_py_wrong_value', 'non-canonical millisecond timestamp read as a different value', {'xml': alt, 'py': repr(back2)})
 
 
 # =============================================================================================
@@ -162,6 +178,20 @@ def w_decimals(ctx: core.Ctx, arg):
     first = True
     for sign, digits, scale in _decimal_strings(rng, per_shape):
         s = _plain(sign, digits, scale)
+        # valid non-canonical spellings of the same number: leading zeros, '.5' for '0.5', '5.' for '5', trailing fraction zeros (the digit
+        # budget of 18 is kept: zeros are only appended while the literal has at most 18 digits)
+        v = rng.randrange(8)
+        if v == 0:
+            body = s[len(sign):]
+            s = sign + '0' * rng.randrange(1, 4) + body
+        elif v == 1 and s[len(sign):].startswith('0.'):
+            s = sign + s[len(sign) + 1:]
+        elif v == 2 and '.' not in s:
+            s += '.'
+        elif v == 3 and '.' in s and len(digits) < 18:
+            s += '0' * rng.randrange(1, 19 - len(digits))
+        if v < 4:
+            ctx.count('dec.noncanonical.evaluated')
         true_val = Fraction(int(digits), 1) / (Fraction(10) ** scale) * (-1 if sign == '-' else 1)
         # statement: decimals of up to 18 digits with exponents in [-18,18]
         try:
@@ -252,7 +282,32 @@ def w_decimal_context(ctx: core.Ctx, arg):
         scale = rng.randrange(0, nd + 1)
         values.append(_plain(rng.choice(['', '-']), digits, scale))
 
+    from sdc11073.xml_types.dataconverters import DurationConverter as DU
+    from sdc11073.xml_types.dataconverters import TimestampConverter as T
+    stamps = ['1700000000.123', '1790000123.456', '0.001', '12345678.9', '9007199254740.991'] + [
+        str(Decimal(rng.randrange(0, 2 ** 53 // 1000)) / 1000) for _ in range(min(arg['n'], 200))]
+    spans = ['123456.789012', '0.000001', '86399.999999', '3600', '1234567.5'] + [
+        str(Decimal(rng.randrange(0, 10 ** 12)) / 10 ** 6) for _ in range(min(arg['n'], 200))]
+
+    def run_ts_dur(prec, where):
+        for conv, key, texts, tol in ((T, 'ts.context_dependent', stamps, Fraction(1, 1000)), (DU, 'dur.context_dependent', spans, Fraction(1, 10 ** 6))):
+            for sv in texts:
+                x = Decimal(sv)                       # construction from a string is exact in every context
+                try:
+                    out = conv.to_xml(x)
+                    back = conv.to_py(out)
+                except Exception as ex:  # noqa: BLE001
+                    ctx.witness(key, f'conversion of a Decimal raises under a decimal context with prec={prec}', {'x': sv, 'ex': repr(ex)[:200]})
+                    break
+                ctx.count(f'{key.split(".")[0]}.context.{where}.prec{prec}')
+                err = abs(Fraction(back) - Fraction(x))
+                if err >= tol if conv is T else err > tol:
+                    ctx.witness(key, f'Python->XML->Python of a Decimal value depends on the decimal context of the calling thread (prec={prec}, {where})',
+                                {'x': sv, 'xml': out, 'back': repr(back)})
+                    break
+
     def run(prec, where):
+        run_ts_dur(prec, where)
         for sv in values:
             true_val = Fraction(Decimal(sv))   # construction from a string is exact in every context
             try:
@@ -455,6 +510,28 @@ def _days_in_month(y, m):
 def w_dates(ctx: core.Ctx, arg):
     from sdc11073.xml_types import isoduration
     rng = ctx.rng('date', arg['i'])
+    # directed: date/time values as an application constructs them - int seconds (also multiples of ten), float seconds whose repr() uses
+    # an exponent, seconds next to the minute; every time zone class
+    utc = datetime.timezone.utc
+    for sec in (0, 1, 9, 10, 20, 30, 40, 50, 59, 0.0, 10.0, 7.5, 1e-05, 5e-07, 1e-06, 2.5e-05, 9.999999, 59.999999, 0.000123):
+        for tzi in (None, utc, datetime.timezone(datetime.timedelta(hours=5, minutes=30)), datetime.timezone(-datetime.timedelta(minutes=30))):
+            ctx.count('date.py_xml_py.directed')
+            ctx.case(('date-directed', repr(sec), repr(tzi)))
+            try:
+                built = isoduration.XsdDateInformation(2024, 2, 29, 23, 59, sec, tz_info=tzi)
+                text = str(built)
+                if not RX_DATE_UNION.match(text):
+                    ctx.witness('date.to_xml_lexical', 'date/time written in a form outside the xsd date / dateTime / gYearMonth / gYear union',
+                                {'second': repr(sec), 'out': text})
+                    continue
+                back = isoduration.parse_date_time(text)
+            except Exception as ex:  # noqa: BLE001
+                ctx.witness('date.py_xml_py', 'a constructed date/time value cannot be written and read back', {'second': repr(sec), 'ex': repr(ex)[:200]})
+                continue
+            if (back.year, back.month, back.day, back.hour, back.minute, back.tz_info) != (2024, 2, 29, 23, 59, tzi) or \
+                    abs(Fraction(back.second) - Fraction(sec)) > Fraction(1, 10 ** 6):
+                ctx.witness('date.py_xml_py', 'a constructed date/time value does not round-trip (py->xml->py)',
+                            {'second': repr(sec), 'xml': text, 'read_back': repr(back)})
     for i in range(arg['n']):
         year = rng.choice([rng.randrange(1, 10000), rng.randrange(1900, 2100), rng.randrange(10000, 200000), -rng.randrange(1, 10000), 1, 9999])
         shape = rng.randrange(5)  # gYear, gYearMonth, date, dateTime, dateTime eod
@@ -468,12 +545,24 @@ def w_dates(ctx: core.Ctx, arg):
             day = rng.randrange(1, _days_in_month(abs(year), month) + 1)
             s += f'-{day:02d}'
         frac = None
+        canonical = True   # canonical strings must come back identical, the others with the same value (documented resolution: 1 us)
+        fkind = 0
         if shape == 3:
             hh, mi, se = rng.randrange(24), rng.randrange(60), rng.randrange(60)
-            frac = rng.choice([None, ''.join(rng.choice('0123456789') for _ in range(rng.randrange(1, 7))).rstrip('0') or None])
+            fkind = rng.randrange(6)
+            if fkind in (1, 2, 3):
+                frac = ''.join(rng.choice('0123456789') for _ in range(rng.randrange(1, 7))).rstrip('0') or None
+            elif fkind == 4:      # trailing zeros: same value, other spelling
+                frac = ''.join(rng.choice('0123456789') for _ in range(rng.randrange(1, 6))) + '0' * rng.randrange(1, 4)
+                canonical = False
+            elif fkind == 5:      # more digits than the resolution
+                frac = ''.join(rng.choice('0123456789') for _ in range(rng.randrange(7, 16)))
+                canonical = False
             s += f'T{hh:02d}:{mi:02d}:{se:02d}' + (f'.{frac}' if frac else '')
         if shape == 4:
-            s += 'T24:00:00'
+            eod_frac = rng.choice(['', '', '.0', '.000'])
+            canonical = not eod_frac
+            s += 'T24:00:00' + eod_frac
         tz = rng.randrange(5)
         if tz == 1:
             s += 'Z'
@@ -491,11 +580,31 @@ def w_dates(ctx: core.Ctx, arg):
             ctx.witness('date.parse_raises', 'valid xsd date/dateTime/gYear/gYearMonth rejected', {'xml': s, 'ex': repr(ex)})
             continue
         ctx.count('date.xml_py_xml.evaluated')
-        ctx.case(('date', shape, tz, frac and len(frac), year < 0, abs(year) > 9999))
+        ctx.case(('date', shape, tz, fkind, frac and len(frac), year < 0, abs(year) > 9999))
         ok_fields = (info.year == year and info.month == month and info.day == day)
+        if shape == 3:
+            exact_sec = Fraction(se) + (Fraction(int(frac), 10 ** len(frac)) if frac else 0)
+            ok_fields = ok_fields and (info.hour, info.minute) == (hh, mi) and abs(Fraction(info.second) - exact_sec) <= Fraction(1, 10 ** 6)
+        if shape == 4:
+            ok_fields = ok_fields and info.end_of_day is True
         if not ok_fields:
             ctx.witness('date.fields', 'parsed date fields differ from the lexical value', {'xml': s, 'info': repr(info)})
-        if out != s:
+        if not RX_DATE_UNION.match(out):
+            ctx.witness('date.to_xml_lexical', 'date/time written in a form outside the xsd date / dateTime / gYearMonth / gYear union', {'xml': s, 'out': out})
+        elif not canonical:
+            ctx.count('date.xml_py_xml.noncanonical')
+            try:
+                info2 = isoduration.parse_date_time(out)
+            except Exception as ex:  # noqa: BLE001
+                ctx.witness('date.xml_py_xml', 'date/time value written by the library is not read back', {'xml': s, 'out': out, 'ex': repr(ex)})
+                continue
+            same = (info2.year, info2.month, info2.day, info2.hour, info2.minute, info2.end_of_day, info2.tz_info) == (
+                info.year, info.month, info.day, info.hour, info.minute, info.end_of_day, info.tz_info)
+            if shape == 3:
+                same = same and abs(Fraction(info2.second) - exact_sec) <= Fraction(1, 10 ** 6)
+            if not same:
+                ctx.witness('date.xml_py_xml', 'date/time value does not round-trip within the microsecond resolution', {'xml': s, 'out': out})
+        elif out != s:
             ctx.witness('date.xml_py_xml', 'date/time value does not round-trip identically', {'xml': s, 'out': out})
         else:
             info2 = isoduration.parse_date_time(out)
@@ -556,6 +665,11 @@ def _mutants(rng, seeds, alphabet, n):
         yield ''.join(s)
 
 
+# characters that Python's str.strip() / int() / Decimal() tolerate and XML Schema does not (the complete classes are enumerated by
+# c18_wire.w_foreign; here they take part in the random mutation grammar)
+_FOREIGN = '\u00a0\u0085\u2003\u2028\u3000\u200b\ufeff\x0b\x0c\x1f\u2212'
+
+
 def w_lexical(ctx: core.Ctx, arg):
     from sdc11073.xml_types import dataconverters as dc
     rng = ctx.rng('lex', arg['i'])
@@ -572,7 +686,7 @@ def w_lexical(ctx: core.Ctx, arg):
             ctx.witness('bool.roundtrip', 'boolean does not round trip', {'xml': s, 'back': back})
     bool_neg = ['', 'True', 'TRUE', 'False', 'FALSE', 'yes', 'no', 'banana', '2', '-1', '00', '01', 'tru', 'truee', 't', 'f', 'on', 'off',
                 'null', 'None', '１', 'true false', '1.0', '0.0']
-    for s in bool_neg + list(_mutants(rng, ['true', 'false', '1', '0'], 'truefalsTF10 _x', n // 4)):
+    for s in bool_neg + list(_mutants(rng, ['true', 'false', '1', '0'], 'truefalsTF10 _x' + _FOREIGN, n // 4)):
         if RX_BOOLEAN.match(collapse(s)):
             continue
         ctx.count('lex.boolean.negatives')
@@ -609,7 +723,7 @@ def w_lexical(ctx: core.Ctx, arg):
                 ctx.witness('int.roundtrip', 'integer not written back exactly', {'conv': conv_name, 'xml': s, 'out': out})
         int_neg = ['', ' ', '1_0', '1_000', '١٢٣', '１２', '1.0', '1e3', '0x10', '0b1', '0o7', '--1', '+-1', '1-', 'NaN', 'INF', '-INF', 'abc',
                    '1 2', '1,000', '+', '-', 'True', '½', '1 2', ' 12', '1_']
-        for s in int_neg + list(_mutants(rng, ['12345', '-7', '+42', '0', '18446744073709551615'], '0123456789+-_ .eExE١１', n // 4)):
+        for s in int_neg + list(_mutants(rng, ['12345', '-7', '+42', '0', '18446744073709551615'], '0123456789+-_ .eExE١１' + _FOREIGN, n // 4)):
             if RX_INTEGER.match(collapse(s)):
                 continue
             ctx.count('lex.integer.negatives')
@@ -624,7 +738,7 @@ def w_lexical(ctx: core.Ctx, arg):
     # --- decimals (lexical negatives) --------------------------------------------
     dec_neg = ['', ' ', 'NaN', 'nan', 'sNaN', 'INF', '-INF', 'Infinity', '-Infinity', '1e3', '1E3', '1E-7', '1_0', '1_0.5', '١.٥', '1,5', '1.2.3',
                '+', '-', '.', '-.', '0x1', 'abc', '1 2', '--1', '１.５', '1.5f', 'Inf', '+inf', '1e', 'e1']
-    for s in dec_neg + list(_mutants(rng, ['12.345', '-0.5', '+42', '0', '.5', '1.'], '0123456789+-_ .eEnNaIFx١１,', n // 3)):
+    for s in dec_neg + list(_mutants(rng, ['12.345', '-0.5', '+42', '0', '.5', '1.'], '0123456789+-_ .eEnNaIFx١１,' + _FOREIGN, n // 3)):
         if RX_DECIMAL.match(collapse(s)):
             continue
         ctx.count('lex.decimal.negatives')
@@ -637,7 +751,11 @@ def w_lexical(ctx: core.Ctx, arg):
         ctx.witness('lex.decimal.accepts_invalid', 'string outside the xsd:decimal lexical space is coerced to a number',
                     {'xml': s, 'got': repr(got)})
     # --- timestamps (lexical negatives; xsd:unsignedLong) ---------------------------------
-    for s in ['', '-1', '1.5', '1e3', '1_0', '١٢', 'NaN', '12 34', '0x1', '-0001', 'abc', '1_000_000']:
+    ts_neg = ['', '-1', '1.5', '1e3', '1_0', '١٢', 'NaN', '12 34', '0x1', '-0001', 'abc', '1_000_000', '1700000000123\u00a0', '\u20031700000000123',
+              '17\u00a000', '1700000000123\u200b', '\u22121']
+    for s in ts_neg + list(_mutants(rng, ['1700000000123', '0', '86400000', '+5'], '0123456789+-_ .eEx١１' + _FOREIGN, n // 4)):
+        if RX_UNSIGNED.match(collapse(s)) or re.fullmatch(r'-0+', collapse(s)):
+            continue  # '-0' is in the lexical space of xsd:unsignedLong
         ctx.count('lex.timestamp.negatives')
         ctx.case(('tsneg', s))
         try:
@@ -738,13 +856,27 @@ def run(ctx: core.Ctx):
         jobs.append(('w_dates', {'i': k, 'n': 10_000 if q else 100_000}))
     for k in range(2 if q else 8):
         jobs.append(('w_lexical', {'i': k, 'n': 2_000 if q else 20_000}))
+    # characters Python tolerates and XML Schema does not (complete classes), and every declared scalar property over real XML text
+    for k in range(1 if q else 4):
+        jobs.append(('w_foreign', {'i': k, 'digit_stride': 9 if q else 2}))
+    for k in range(2 if q else 16):
+        jobs.append(('w_props', {'i': k, 'n': 12 if q else 60}))
     ctx.extra['timestamp_windows_exhaustive'] = [[0, lo_n], [now_ms, now_ms + now_n]]
     core.fanout(ctx, MODULE, 'dispatch', [list(j) for j in jobs])
     for name, floor in (('ts.xml_py_xml.evaluated', lo_n + now_n), ('ts.py_xml_py.evaluated', 1000), ('dec.xml_py.evaluated', 1000),
                         ('dur.py_xml_py.evaluated', 1000), ('date.xml_py_xml.evaluated', 1000), ('enum.members.evaluated', 100),
-                        ('lex.boolean.negatives', 10), ('lex.integer.negatives', 10), ('lex.decimal.negatives', 10)):
+                        ('lex.boolean.negatives', 10), ('lex.integer.negatives', 10), ('lex.decimal.negatives', 10), ('lex.timestamp.negatives', 10),
+                        ('lex.foreign.negatives.space', 1000), ('lex.foreign.negatives.digit', 1000), ('lex.xmlspace.accepted', 50),
+                        ('props.py_xml_py.evaluated', 1000), ('props.xml_py.evaluated', 1000), ('lex.props.negatives', 1000),
+                        ('lex.props.negatives.space', 50), ('props.decimal.list_attribute', 1), ('props.integer.text_list', 1),
+                        ('props.date.element_text', 1), ('date.py_xml_py.directed', 50), ('date.xml_py_xml.noncanonical', 100),
+                        ('dec.noncanonical.evaluated', 1000), ('ts.noncanonical.evaluated', 1000), ('ts.context.localcontext.prec28', 5),
+                        ('dur.context.localcontext.prec28', 5)):
         ctx.floor(name, floor)
-    ctx.assumptions += ['XML whitespace collapsing is done by the XML processor before the converter sees a value; padded values are not negatives',
+    ctx.assumptions += ['white space collapsing: a literal padded only with XML white space (#x20 #x9 #xA #xD) is not a negative (accepting it is allowed, then the '
+                        'value must be exact; rejecting it is not counted as a violation); every other character, also one that Python calls white space, '
+                        'makes the literal a negative',
+                        'DecimalConverter.USE_DECIMAL_TYPE = False (float mode, not the default, lossy by construction) is not driven',
                         'float second values are compared as exact rationals (Fraction)']
 
 
